@@ -471,6 +471,9 @@ def _main(args=None):
         install_profiler = global_profiler._kernprof_overwrite
 
     if global_profiler:
+        # Remember how the global `@line_profiler.profile` was set up
+        global_profiler_state = (global_profiler._profile,
+                                 global_profiler.enabled)
         install_profiler(prof)
 
     if options.builtin:
@@ -534,6 +537,8 @@ def _main(args=None):
         # Restore the state of the global `@line_profiler.profile`
         if global_profiler:
             install_profiler(None)
+            (global_profiler._profile,
+             global_profiler.enabled) = global_profiler_state
 
 
 if __name__ == '__main__':
